@@ -31,3 +31,16 @@ Theorem C12_get_words : forall (Vr : Type) (E : EqDec Vr) (G : cfg Vr) (n : nat)
   NoDup (get_words G n) /\ forall w, In w (get_words G n) <-> (LangG G w /\ length w <= n).
 Proof. exact (@get_words_spec). Qed.
 Print Assumptions C12_get_words.
+
+(* is_finite: the cycle test on the variable graph of the normal form decides finiteness of the language; nf_vars_useful (every
+   variable of the normal form generating and reachable) is evaluated on every case of the correspondence leg *)
+From PFL Require Import Proofs.CfgFinite.
+Theorem C12_graph_acyclic : forall (X : Type) (E : EqDec X) (C : cfg X), is_normal_form C = true -> nf_vars_useful C = true ->
+  (graph_acyclic C = true <-> lang_finite C).
+Proof. exact (@graph_acyclic_useful). Qed.
+Print Assumptions C12_graph_acyclic.
+
+Theorem C12_is_finite : forall (Vr : Type) (E : EqDec Vr) (fuel : nat) (G : cfg Vr) (C : cfg (cvar Vr)) (b : bool),
+  to_normal_form fuel G = Some C -> nf_vars_useful C = true -> is_finite fuel G = Some b -> (b = true <-> lang_finite G).
+Proof. exact (@is_finite_spec). Qed.
+Print Assumptions C12_is_finite.
